@@ -17,4 +17,26 @@ PROPERTIES = {
              "subtargets": ["line", "line_apply", "circle", "circle_apply", "ellipse", "ellipse_clip"]},
         ],
     },
+    "C06": {
+        "level": "exploration",
+        "assumptions": [
+            "channel models = the value models the library provides (8/16/32-bit signed and unsigned, float32_t, packed_channel_value<1..16>) plus packed channel references, whose conversions go through the same value converters",
+            "'up to float32 precision' is read as an extra tolerance of 2^-22 of the destination range when a 32-bit or float channel is involved",
+        ],
+        "targets": [
+            {"name": "c06_conv", "src": "c06_channel_convert.cpp", "mode": "fast", "flags": ['-DVERIF_TARGET_NAME="c06_conv"'], "subtargets": ["conv", "ref", "dref"], "exclusive": True},
+            {"name": "c06_conv_san", "src": "c06_channel_convert.cpp", "mode": "asan", "flags": ['-DVERIF_TARGET_NAME="c06_conv_san"', "-DVERIF_STRIDE=16"], "subtargets": [], "threads": 8, "subset": True},
+        ],
+    },
+    "C07": {
+        "level": "exploration",
+        "assumptions": [
+            "32-bit channels are outside the multiply clause (the property quantifies multiply over 8/16-bit, packed and float channels); they are covered for channel_invert",
+            "float: 'within float rounding' = 1.2e-7 absolute on [0,1]; invert on float32 is compared with the float expression 1.0f - x, involution within 1.2e-7",
+        ],
+        "targets": [
+            {"name": "c07_mulinv", "src": "c07_channel_mul_inv.cpp", "mode": "fast", "flags": ['-DVERIF_TARGET_NAME="c07_mulinv"'], "subtargets": ["mul", "inv", "fmul", "finv"], "exclusive": True},
+            {"name": "c07_mulinv_san", "src": "c07_channel_mul_inv.cpp", "mode": "asan", "flags": ['-DVERIF_TARGET_NAME="c07_mulinv_san"', "-DVERIF_STRIDE=16"], "subtargets": [], "threads": 8, "subset": True},
+        ],
+    },
 }
